@@ -1,3 +1,4 @@
+import GoSQLXModel.Driver.LoopsOp
 /-! Dispatch table of the line-protocol driver. Each op parses its payload, runs the executable
     model and prints a canonical one-line answer. -/
 namespace GoSQLXModel.Driver
@@ -5,6 +6,7 @@ namespace GoSQLXModel.Driver
 def dispatch (op payload : String) : String :=
   match op with
   | "ping" => "pong " ++ payload
+  | "loops" => loopsOp payload
   | _ => "bad-op"
 
 end GoSQLXModel.Driver
